@@ -11,7 +11,7 @@ def validConfig (c : PeerCfg) : Prop :=
   c.remote.kind ≠ .invalid ∧
   (c.localAddr.kind = .invalid ∨ c.localAddr.kind = c.remote.kind) ∧
   c.localAS ≠ 0 ∧ c.remoteAS ≠ 0 ∧
-  ¬ (0 < c.holdNs ∧ c.holdNs < 3000000000) ∧       -- hold time of 1 or 2 seconds (anything in (0, 3 s))
+  (c.holdNs = 0 ∨ 3000000000 ≤ c.holdNs) ∧        -- hold time 0 or ≥ 3 s (`WithHoldTime` takes whole seconds: not 1 or 2)
   1 ≤ c.port ∧ c.port ≤ 65535
 
 instance (c : PeerCfg) : Decidable (validConfig c) := by unfold validConfig; infer_instance
